@@ -51,6 +51,17 @@ CHECKS["C19"] = dict(
    design_ref="DESIGN.md 4.7, 6 (C19), 9",
    note="Trusted: TLC, Json module, the verif accessors VerifNewFileWriter/Reader/VerifNewItem. CRC32 uninterpreted (checksums compared implementation-to-implementation). Bounds: exhaustive <=3 items of <=2-3 bytes over {0,1,255}; traces: lengths 1..70000, <=5 items per stream.")
 
+BK_NOTE = ("Trusted: TLC, strace (-f -y -xx), RLIMIT_FSIZE semantics, the harness's panic/hang classification (goroutine dump). Real StoreToDisk uses runtime.NumCPU() "
+           "shards (16 here); model instances have 2-3 shards with <= 2 items. Crash model: process death between syscalls; no torn writes or power loss.")
+CHECKS["C11"] = dict(
+   technique="TLA+ model Backup.tla (C11_DamageDetected, C11_MultiShard over the Load operator) exhausted by TLC; exhaustive single-fault enumeration on real backup directories with every outcome judged by TLC (Trace_Backup.tla)",
+   text="Backup.tla models LoadFromDisk as an operator over disk images and TLC checks that every single fault of every completed backup of the instance yields error or exact. On the real code every byte of every file of small stored databases is altered (3 patterns), every file truncated at every length and removed, plus multi-shard combinations, for several restore concurrencies, delta on/off, both comparators/memory modes; LoadFromDisk runs under a watchdog with panic capture and each outcome is validated by TLC against the stored snapshot's view. Fault enumeration is complete per database (thorough) which is what 'every single-fault damage' asks for; the model supplies the allowed outcome set and the classes.",
+   design_ref="DESIGN.md 4.6, 6 (C11)", note=BK_NOTE)
+CHECKS["C12"] = dict(
+   technique="TLA+ model Backup.tla (C12_NoSilentPartial, C12_CrashSafe with Crash/DiskFull between any two file-system mutations) exhausted by TLC; real StoreToDisk under RLIMIT_FSIZE sweep and strace; every syscall prefix materialised and loaded; outcomes judged by TLC",
+   text="TLC explores every interleaving of buffered writes, flushes, crash and disk-full in the model of StoreToDisk's mutation order and shows success implies an exactly loadable backup and every crash image loads as error or exact. The real StoreToDisk runs in a child under every file-size limit from 0 to the largest file (writes fail with EFBIG) and under strace; the recorded mutation sequence is compared with the model's order and every prefix is rebuilt as a directory and given to the real LoadFromDisk; TLC judges ret=ok => exact and crash-prefix outcomes in {error, exact}.",
+   design_ref="DESIGN.md 4.6, 6 (C12)", note=BK_NOTE)
+
 NOT_YET = "check not built yet (work in progress; see DESIGN.md section 8.1 build order)"
 
 def main():
